@@ -20,6 +20,7 @@ import os
 import random
 import sys
 import threading as _rt
+import time
 import types
 
 import hcommon as H
@@ -39,6 +40,16 @@ class Abort(BaseException):
     pass
 
 
+class Hang(Exception):
+    """a logical thread did not come back to the scheduler within WATCHDOG
+    seconds: it blocks on something that is not one of the cooperative
+    primitives (or loops for ever)"""
+
+
+WATCHDOG = 4.0          # seconds of wall time one scheduler step may take
+CASE_BUDGET = 20.0      # seconds of wall time one case may take
+
+
 class LThread(object):
     def __init__(self, tid):
         self.ident = tid
@@ -46,6 +57,7 @@ class LThread(object):
         self.pending = ('init',)
         self.done = False
         self.real = None
+        self.crashed = None      # repr of an exception that ended the thread
 
 
 class Sched(object):
@@ -55,10 +67,22 @@ class Sched(object):
         self.by_real = {}
         self.events = []
         self.aborting = False
-        self.locks = []            # every fake Lock, in creation order (kept alive)
-        self.cmd_locks = []        # locks created after set-up: per-command locks
+        self.locks = []            # the locks created during set-up (kept alive)
+        self.ncmd = 0              # number of per-command locks created so far
         self.setup_done = False
         self.notes = set()
+        self.hung = None
+        # task ids: controller.py calls id(lock); the harness substitutes an
+        # allocator that behaves like CPython's for objects of one size class
+        # (the address of a freed lock is handed to the next lock created)
+        # but deterministically.  Per-command locks are NOT kept alive here.
+        self.next_fid = 1000
+        self.free_fids = []        # ids of freed locks, most recently freed last
+        self.retired = set()       # ids whose result was collected: never reused
+        self.fid_of_k = {}         # task index -> id handed out by dispatch
+        self.k_of_fid = {}         # id -> latest task index it was handed to
+        self.collected = set()     # task indices whose result get_result returned
+        self.id_collisions = []    # (id, older uncollected task, new task)
 
     # --- called from logical threads
     def me(self):
@@ -91,6 +115,9 @@ class Sched(object):
                     fn()
             except Abort:
                 pass
+            except BaseException as e:      # noqa  (the thread dies of it)
+                t.crashed = '%s: %s' % (type(e).__name__, e)
+                self.events.append('raised=' + type(e).__name__)
             t.done = True
             t.pending = ('finished',)
             self.main_sem.release()
@@ -99,7 +126,14 @@ class Sched(object):
         t.real.start()
         # run up to its first yield
         t.sem.release()
-        self.main_sem.acquire()
+        self._await(tid)
+
+    def _await(self, tid):
+        """wait for the running logical thread to reach its next yield point;
+        never for longer than WATCHDOG seconds"""
+        if not self.main_sem.acquire(timeout=WATCHDOG):
+            self.hung = tid
+            raise Hang(tid)
 
     def enabled(self, tid):
         t = self.threads[tid]
@@ -107,9 +141,14 @@ class Sched(object):
         k = p[0]
         if k in ('finished', 'blocked'):
             return False
-        if k in ('acq', 'reacq'):
+        if k in ('acq', 'reacq', 'twait'):
             return p[1].free_for(t)
         return True
+
+    def deadlocked(self):
+        """every thread that has not finished is blocked"""
+        return not self.enabled_set() and any(
+            not t.done for t in self.threads.values())
 
     def enabled_set(self):
         return [tid for tid in sorted(self.threads) if self.enabled(tid)]
@@ -119,17 +158,56 @@ class Sched(object):
         assert self.enabled(tid)
         self.events = []
         t.sem.release()
-        self.main_sem.acquire()
+        self._await(tid)
         return '+'.join(self.events)
 
     def teardown(self):
         self.aborting = True
-        for t in self.threads.values():
-            if not t.done:
+        for tid, t in self.threads.items():
+            if not t.done and tid != self.hung:
                 t.sem.release()
-                self.main_sem.acquire()
-        for t in self.threads.values():
-            t.real.join(5)
+                if not self.main_sem.acquire(timeout=WATCHDOG):
+                    break
+        for tid, t in self.threads.items():
+            if tid != self.hung:
+                t.real.join(2)
+
+    # --- task ids
+    def fake_id(self, obj):
+        if not isinstance(obj, FLock):
+            return id(obj)
+        if obj.fid is None:
+            fid = None
+            while self.free_fids:
+                c = self.free_fids.pop()
+                if c not in self.retired:
+                    fid = c
+                    break
+            if fid is None:
+                fid = self.next_fid
+                self.next_fid += 1
+            obj.fid = fid
+            k = obj.index
+            if k is not None:
+                old = self.k_of_fid.get(fid)
+                if old is not None and old not in self.collected:
+                    self.id_collisions.append((fid, old, k))
+                self.fid_of_k[k] = fid
+                self.k_of_fid[fid] = k
+        return obj.fid
+
+    def freed(self, fid):
+        if fid not in self.retired:
+            self.free_fids.append(fid)
+
+    def collect(self, k):
+        """get_result handed out the result of task k: its id is retired (on
+        the unmodified code the lock lives until then, so ids never repeat
+        and the model's never-reused task ids are what the code does)"""
+        self.collected.add(k)
+        fid = self.fid_of_k.get(k)
+        if fid is not None:
+            self.retired.add(fid)
 
 
 SCHED = None      # the scheduler of the schedule being run
@@ -140,20 +218,42 @@ class FLock(object):
     def __init__(self):
         self.owner = None
         self.locked_ = False
-        s = SCHED
-        s.locks.append(self)
+        self.fid = None
+        self.index = None
+        s = self.sched = SCHED
         if s.setup_done:
-            self.name = 'c%d' % len(s.cmd_locks)
-            s.cmd_locks.append(self)
+            self.index = s.ncmd
+            self.name = 'c%d' % s.ncmd
+            s.ncmd += 1
         else:
             self.name = '?'
+            s.locks.append(self)
+
+    def __del__(self):
+        try:
+            if self.fid is not None and self.sched is SCHED:
+                self.sched.freed(self.fid)
+        except Exception:       # noqa  (interpreter shutdown)
+            pass
 
     def free_for(self, t):
         return not self.locked_
 
     def acquire(self, blocking=True, timeout=-1):
         s = SCHED
+        if not blocking or (timeout is not None and timeout >= 0):
+            # try-lock / timed acquire: one always-enabled yield point; a timed
+            # acquire of a held lock is taken to time out (outside the model)
+            s.notes.add('non-blocking or timed Lock.acquire (outside the model)')
+            t = s.yield_(('try', self))
+            if not self.free_for(t):
+                s.ev('tryfail:' + self.name)
+                return False
+            return self._take(s, t)
         t = s.yield_(('acq', self))
+        return self._take(s, t)
+
+    def _take(self, s, t):
         assert not self.locked_
         self.locked_ = True
         self.owner = t.ident
@@ -174,7 +274,8 @@ class FLock(object):
     def locked(self):
         return self.locked_
 
-    __enter__ = acquire
+    def __enter__(self):
+        return self.acquire()
 
     def __exit__(self, *a):
         self.release()
@@ -192,7 +293,14 @@ class FRLock(FLock):
 
     def acquire(self, blocking=True, timeout=-1):
         s = SCHED
-        t = s.yield_(('acq', self))
+        if not blocking or (timeout is not None and timeout >= 0):
+            s.notes.add('non-blocking or timed RLock.acquire (outside the model)')
+            t = s.yield_(('try', self))
+            if not self.free_for(t):
+                s.ev('tryfail:' + self.name)
+                return False
+        else:
+            t = s.yield_(('acq', self))
         if self.locked_:
             assert self.owner == t.ident
             s.notes.add('re-entrant acquire of %s (outside the model)' % self.name)
@@ -201,6 +309,9 @@ class FRLock(FLock):
         self.depth += 1
         s.ev('acq:' + self.name)
         return True
+
+    def _is_owned(self):
+        return self.locked_ and self.owner == SCHED.me().ident
 
     def release(self):
         s = SCHED
@@ -215,7 +326,8 @@ class FRLock(FLock):
             self.owner = None
         s.ev('rel:' + self.name)
 
-    __enter__ = acquire
+    def __enter__(self):
+        return self.acquire()
 
 
 class FCondition(object):
@@ -234,8 +346,8 @@ class FCondition(object):
     def free_for(self, t):
         return self.lock.free_for(t)
 
-    def acquire(self, *a):
-        return self.lock.acquire(*a)
+    def acquire(self, *a, **k):
+        return self.lock.acquire(*a, **k)
 
     def release(self):
         return self.lock.release()
@@ -247,6 +359,9 @@ class FCondition(object):
         self.lock.release()
 
     def wait(self, timeout=None):
+        """timeout=None: blocked until notified.  With a timeout the waiter
+        may in addition give up at any moment the lock is free (a timeout can
+        fire at any time): it then returns False, as CPython's does."""
         s = SCHED
         if timeout is not None:
             s.notes.add('Condition.wait with timeout (outside the model)')
@@ -254,21 +369,45 @@ class FCondition(object):
         lk = self.lock
         if not lk.locked_ or lk.owner != t.ident:
             raise RuntimeError('cannot wait on un-acquired lock')
-        if lk.depth != 1:
-            s.notes.add('wait with re-entrant depth %d' % lk.depth)
-        saved = lk.depth
+        depth = getattr(lk, 'depth', 1)
+        if depth != 1:
+            s.notes.add('wait with re-entrant depth %d' % depth)
+        saved = depth
         self.waiters.append(t)
-        lk.depth = 0
+        if hasattr(lk, 'depth'):
+            lk.depth = 0
         lk.locked_ = False
         lk.owner = None
         s.ev('wait:' + self.name)
-        s.yield_(('blocked', self))       # pending becomes ('reacq', self) on notify
+        # pending becomes ('reacq', self) on notify
+        s.yield_(('blocked', self) if timeout is None else ('twait', self))
         assert lk.free_for(t) and not lk.locked_
+        notified = t not in self.waiters
+        if not notified:
+            self.waiters.remove(t)
         lk.locked_ = True
         lk.owner = t.ident
-        lk.depth = saved
-        s.ev('reacq:' + self.name)
-        return True
+        if hasattr(lk, 'depth'):
+            lk.depth = saved
+        s.ev(('reacq:' if notified else 'timeout:') + self.name)
+        return notified
+
+    def wait_for(self, predicate, timeout=None):
+        """as CPython: `while not predicate(): self.wait()`; the predicate is
+        ordinary code run under the lock, each wait() a pair of yield points"""
+        result = predicate()
+        while not result:
+            if timeout is not None:
+                if not self.wait(timeout):
+                    return predicate()
+            else:
+                self.wait()
+            result = predicate()
+        return result
+
+    def _is_owned(self):
+        lk = self.lock
+        return lk.locked_ and lk.owner == SCHED.me().ident
 
     def _notify(self, n, tag):
         s = SCHED
@@ -276,6 +415,7 @@ class FCondition(object):
         lk = self.lock
         if not lk.locked_ or lk.owner != t.ident:
             raise RuntimeError('cannot notify on un-acquired lock')
+        n = max(int(n), 0)
         woken = self.waiters[:n]
         self.waiters = self.waiters[n:]
         for w in woken:
@@ -324,6 +464,7 @@ def load_controller():
     ft, fth = _fake_modules()
     mod = types.ModuleType('pysph_solver_controller_under_test')
     mod.__file__ = CTRL_PATH
+    mod.__dict__['id'] = lambda obj: SCHED.fake_id(obj)   # see Sched.fake_id
     saved = {k: sys.modules.get(k) for k in ('threading', '_thread', 'thread')}
     sys.modules['threading'] = ft
     sys.modules['_thread'] = fth
@@ -411,16 +552,10 @@ def run_impl(case, chooser):
     mine = {i + 1: [] for i in range(len(progs))}   # task ids each thread got
 
     def realid(k):
-        if 0 <= k < len(S.cmd_locks):
-            return id(S.cmd_locks[k])
-        return 1        # never the id of an object: unknown task id
+        return S.fid_of_k.get(k, 1)     # 1 is never handed out: unknown task id
 
     def lockindex(s):
-        i = int(s)
-        for k, lk in enumerate(S.cmd_locks):
-            if id(lk) == i:
-                return k
-        return -1
+        return S.k_of_fid.get(int(s), -1)
 
     def iface(tid, prog):
         def fn():
@@ -454,6 +589,7 @@ def run_impl(case, chooser):
                         if op == 'm':
                             arg = mine[tid][arg] if arg < len(mine[tid]) else -1
                         r = ctl_n.get_result(realid(arg))
+                        S.collect(arg)
                         if r is None:
                             res = 'none'
                         elif isinstance(r, list) and len(r) == 1:
@@ -495,23 +631,34 @@ def run_impl(case, chooser):
             solver.in_cp = False
             S.ev('done=cp')
 
-    S.spawn(0, solver_fn)
-    for i, prog in enumerate(progs):
-        S.spawn(i + 1, iface(i + 1, prog))
     trace = []
     n = 0
-    while True:
-        en = S.enabled_set()
-        tid = chooser(n, en, S)
-        if tid is None:
-            break
-        if tid not in en:
-            trace.append(('.'.join(map(str, en)) or '-', 'stuck:%d' % tid))
-            break
-        cur_step[0] = n
-        ev = S.step(tid)
-        trace.append(('.'.join(map(str, en)) or '-', '%d:%s' % (tid, ev)))
-        n += 1
+    hang = None
+    t_start = time.time()
+    try:
+        S.spawn(0, solver_fn)
+        for i, prog in enumerate(progs):
+            S.spawn(i + 1, iface(i + 1, prog))
+        while True:
+            en = S.enabled_set()
+            tid = chooser(n, en, S)
+            if tid is None:
+                break
+            if tid not in en:
+                trace.append(('.'.join(map(str, en)) or '-', 'stuck:%d' % tid))
+                break
+            if time.time() - t_start > CASE_BUDGET:
+                hang = 'case exceeded %.0f s of wall time after %d steps' % (
+                    CASE_BUDGET, n)
+                break
+            cur_step[0] = n
+            ev = S.step(tid)
+            trace.append(('.'.join(map(str, en)) or '-', '%d:%s' % (tid, ev)))
+            n += 1
+    except Hang as h:
+        hang = ('thread %s did not reach its next synchronisation primitive '
+                'within %.0f s (step %d)' % (h.args[0], WATCHDOG, n))
+    deadlock = S.deadlocked()
     en = S.enabled_set()
     pend = {}
     for tid, t in S.threads.items():
@@ -531,14 +678,18 @@ def run_impl(case, chooser):
         'qdict': sorted(lockindex(x) for x in cm.queue_dict),
         'dt': solver._dt, 'count': solver.count,
         'pending': pend,
-        'finished': sorted(tid for tid, t in S.threads.items() if t.done),
+        'finished': sorted(tid for tid, t in S.threads.items()
+                           if t.done and tid != 0),
     }
     notes = sorted(S.notes)
+    crashed = {tid: t.crashed for tid, t in S.threads.items() if t.crashed}
+    collisions = list(S.id_collisions)
     S.teardown()
     SCHED = None
     return {'trace': trace, 'final': final, 'log': log, 'oplog': oplog,
             'cmd_of': cmd_of, 'progress_steps': progress_steps,
-            'notes': notes, 'nsteps': n}
+            'notes': notes, 'nsteps': n, 'hang': hang, 'deadlock': deadlock,
+            'crashed': crashed, 'id_collisions': collisions}
 
 
 # ---------------------------------------------------------------------------
@@ -812,6 +963,22 @@ def oracle(case, impl, R):
                                   'execute_commands' % k, repr(ex)))
     f = impl['final']
     all_done = len(f['finished']) == len(progs)
+    # the scheduler's own findings
+    if impl.get('hang'):
+        fails.append(('C18:deadlock:thread-stuck-outside-scheduler',
+                      'every thread reaches its next synchronisation primitive '
+                      '(or finishes) promptly', impl['hang']))
+    if 0 in impl.get('crashed', {}):
+        fails.append(('C18:solver-thread-raised',
+                      'the solver thread never raises inside execute_commands '
+                      '(Lean: solver_never_raises)', impl['crashed'][0]))
+    for fid, old, new in impl.get('id_collisions', []):
+        fails.append(('C18:task-id-reused-while-outstanding',
+                      'every task id handed out by dispatch is unique among the '
+                      'tasks whose result has not been collected',
+                      'task %d got id %d, which task %d (result not yet '
+                      'collected) still uses' % (new, fid, old)))
+        break
     quiescent = all_done and f['enabled'] == [0] and \
         f['pending'][0][:2] == ('start', 'step') and impl.get('drained')
     if unique and quiescent:
@@ -956,6 +1123,19 @@ def corpus():
         # two pausing threads, second cont() against the re-checking solver
         {'progs': [['p', 'w', 'c'], ['p', 'w', 'c']],
          'sched': [1] * 4 + [2] * 4 + [1, 1, 2, 2] + [0] * 8 + [1] * 8 + [0] * 3 + [2] * 4 + [0]},
+        # a second thread pauses while the solver is already parked for the
+        # first; the first continues without queueing; the second then waits:
+        # the cont() must get the solver round the `while self.pause` loop
+        {'progs': [['p', 'w', 'c'], ['p', 'w', 'c']],
+         'sched': [1] * 4 + [0] * 12 + [2] * 4 + [1] * 10 + [2] * 3},
+        {'progs': [['p', 'w', 'c', 'g'], ['g', 'p', 'w', 'c'], ['p', 'c']],
+         'sched': [1] * 4 + [0] * 12 + [2] * 6 + [3] * 4 + [1] * 10 + [2] * 3},
+        # several commands queued across control points, results collected
+        # late and out of order: task ids must stay distinct while outstanding
+        {'progs': [['qd', 'qd', 'g', 'qd', 'm2', 'm0', 'm1']],
+         'sched': [1] * 14 + [0] * 14 + [1] * 9 + [0] * 12},
+        {'progs': [['qd', 'qs5', 'qd'], ['qd', 'g', 'g', 'qd', 'm1', 'm0']],
+         'sched': [1] * 14 + [2] * 7 + [0] * 16 + [2] * 12 + [1] * 7 + [0] * 12},
         {'progs': [['qd', 'm0', 'qs7', 'g', 'm1']], 'sched': []},
         {'progs': [['qd', 'qd'], ['r0', 'r0', 'r1']], 'sched': [1] * 12},
         {'progs': [['w'], ['c'], ['p']], 'sched': [1, 1, 1, 2, 2, 2]},
@@ -1012,12 +1192,22 @@ def main():
     cfgs_ok = set(ALLCFG)
     all_mism = []
 
+    hangs = [0]
+
     def batch(cases, rngs, tag):
         impls = []
         for c, r in zip(cases, rngs):
+            if hangs[0] >= 3:
+                R.note('stopped running further cases after 3 cases in which '
+                       'a thread got stuck outside the cooperative scheduler')
+                break
             im = run_case(c, r)
+            if im.get('hang'):
+                hangs[0] += 1
             c2 = dict(c, sched=realized(im))
             impls.append((c2, im))
+        if not impls:
+            return
         cs = [c for c, _ in impls]
         ims = [im for _, im in impls]
         mism, out = process(cs, ims, R, cfgs_ok, tag)
